@@ -4,6 +4,7 @@ import (
 	"fmt"
 
 	"verifsim/engine"
+	"verifsim/machine"
 )
 
 // C05 — HALT idles until an enabled request and reproduces the halt bug.
@@ -31,9 +32,9 @@ func (c05) Describe() engine.Info {
 			"Oracle: reference SM83 in lock step: halted state after every cycle, no instruction boundary advances PC while idle, wake only on an enabled request, dispatch length, PC/registers after the doubled instruction. Signature = (class, idle-length bucket, line enabled?, what followed).",
 		Assumptions: []string{
 			"leaving HALT with IME=0 costs one machine cycle before the next instruction (DMG behaviour pinned by mooneye halt_ime0_nointr_timing; the statement does not fix it)",
-			"HALT directly after EI is a hardware corner outside the statement and is not generated",
+			"HALT directly after EI with a request already pending (class ime1-pending) is documented in more than one way for the DMG (return address at or after the HALT); only what all readings share is judged: one dispatch, each handler instruction once, request acknowledged",
 		},
-		RequiredProbes: []string{"irq_after_halt", "halt_idle_cycles", "halt_bug", "wake_dispatch", "wake_no_dispatch", "not_enabled_line_ignored"},
+		RequiredProbes: []string{"ei_halt_pending", "irq_after_halt", "halt_idle_cycles", "halt_bug", "wake_dispatch", "wake_no_dispatch", "not_enabled_line_ignored"},
 		RealComponents: realComponents, StubComponents: stubComponents,
 		Sweeps: []string{"HALT followed by every lock-step opcode (cycled by index) in classes ime1 and ime0-idle"},
 	}
@@ -65,6 +66,9 @@ func (c05) Generate(r *engine.Rand, index int, tier string) *engine.Scenario {
 	g.emitStackSetup()
 	for i, n := 0, r.Intn(3); i < n; i++ {
 		g.emit(engine.Pick(r, c05SafeOps))
+	}
+	if index%16 == 15 {
+		return genEIHalt(r, sc)
 	}
 	cls := index % 3
 	ie := uint8(1<<uint(r.Intn(5))) | r.Byte()&0x1f&r.Byte()
@@ -140,8 +144,89 @@ func (c05) Generate(r *engine.Rand, index int, tier string) *engine.Scenario {
 	return sc
 }
 
+// genEIHalt: HALT with the master enable set and an enabled request already pending, which a
+// guest reaches through the delayed effect of EI (EI directly followed by HALT). What the DMG
+// does with the return address in this corner is documented in more than one way, so only what
+// all readings share is judged: the request is dispatched exactly once, every instruction of
+// the handler executes exactly once, the request flag is acknowledged and no instruction after
+// the HALT executes more often than the halt bug could explain.
+func genEIHalt(r *engine.Rand, sc *engine.Scenario) *engine.Scenario {
+	sc.Class = "ime1-pending"
+	line := r.Intn(5)
+	var code []byte
+	sp := uint16(r.Range(lsStackLo+0x40, lsStackHi-0x40))
+	code = append(code, 0x31, byte(sp), byte(sp>>8), 0x06, 0x00, 0x0e, 0x00)
+	for i, n := 0, r.Intn(4); i < n; i++ {
+		code = append(code, engine.Pick(r, []uint8{0x00, 0x3c, 0x14, 0x1c, 0x2f, 0x37}))
+	}
+	pre := len(code)
+	code = append(code, 0xfb, 0x76, 0x0c, 0x0c)
+	for i, n := 0, r.Intn(4); i < n; i++ {
+		code = append(code, 0x00)
+	}
+	code = append(code, 0x18, 0xfe)
+	sc.Cart = engine.CartSpec{Kind: "rom", Program: "18fe", FillSeed: r.U64(), Handler: "04d9"} // INC B ; RETI
+	sc.SetStr("prog", engine.Hex(code))
+	sc.SetP("line", int64(line))
+	sc.SetP("ie", int64(1<<uint(line))|int64(r.Byte()&0xe0))
+	sc.SetP("halt_at", int64(lsCodeWRAM)+int64(pre)+1)
+	sc.Cycles = uint64(len(code))*2 + 64 + uint64(r.Intn(64))
+	return sc
+}
+
+func executeEIHalt(sc *engine.Scenario, res *engine.Result) *engine.Result {
+	m := build(sc, res)
+	if m == nil {
+		return res
+	}
+	m.GuardUndefined = true
+	m.Park()
+	m.Write(0xff40, 0x00) // no VBlank/STAT requests of its own
+	code := engine.UnHex(sc.Str("prog"))
+	for i, b := range code {
+		m.Write(lsCodeWRAM+uint16(i), b)
+	}
+	line := uint(sc.P("line", 0))
+	m.Write(0xffff, uint8(sc.P("ie", 0)))
+	m.Write(0xff0f, 1<<line)
+	rg := m.CPU.VerifGetRegs()
+	rg.PC = lsCodeWRAM
+	m.CPU.VerifSetRegs(rg)
+	pi := machine.Protect(func() { m.RunCycles(sc.Cycles) })
+	res.Cycles = m.N
+	if pi != nil {
+		if pi.Emulator {
+			res.Fail("C05/panic/"+pi.Site, m.N, "emulator panicked: %s", pi.Value)
+		} else {
+			res.Harness = pi.Value + "\n" + pi.Stack
+		}
+		return res
+	}
+	rg = m.CPU.VerifGetRegs()
+	iff := m.Read(0xff0f)
+	haltAt := uint16(sc.P("halt_at", 0))
+	res.Probe("ei_halt_pending")
+	where := fmt.Sprintf("EI;HALT at %04x with IE&IF=%02x already pending: after %d cycles B=%d (handler = INC B;RETI) C=%d (two INC C follow the HALT) PC=%04x halted=%v IF=%02x", haltAt-1, 1<<line, sc.Cycles, rg.B, rg.C, rg.PC, m.CPU.VerifHalted(), iff)
+	switch {
+	case rg.B == 0:
+		res.Fail("C05/ime1-pending/not-dispatched", m.N, "%s: the pending enabled request was never dispatched", where)
+	case rg.B != 1:
+		res.Fail("C05/ime1-pending/handler-instruction-repeated", m.N, "%s: the handler's first instruction executed %d times for one request", where, rg.B)
+	case iff&(1<<line) != 0:
+		res.Fail("C05/ime1-pending/not-acknowledged", m.N, "%s: the request flag is still set", where)
+	case !(rg.C == 2 || rg.C == 3 || (rg.C == 0 && m.CPU.VerifHalted())):
+		res.Fail("C05/ime1-pending/following-instructions", m.N, "%s: the instructions after the HALT did not execute once each (or twice for the first, or not at all with the CPU idling in a re-executed HALT)", where)
+	}
+	res.Sig(fmt.Sprintf("ime1-pending/line%d/C=%d/halted=%v", line, rg.C, m.CPU.VerifHalted()))
+	res.Digest = uint64(rg.B)<<32 | uint64(rg.C)<<24 | uint64(rg.PC)<<8 | uint64(iff)
+	return res
+}
+
 func (c05) Execute(sc *engine.Scenario) *engine.Result {
 	res := &engine.Result{}
+	if sc.Class == "ime1-pending" {
+		return executeEIHalt(sc, res)
+	}
 	l := newLockstep(sc, res)
 	if l == nil {
 		return res
